@@ -43,7 +43,7 @@ structure Case where
   alone : List (String × String) := []              -- process, normalised trace
   items : List Item := []
   memberLines : List (String × String) := []        -- label, normalised trace
-  observed : List (Nat × String × String) := []     -- position, label, catch node of `observed` traces
+  observed : List (Nat × String × String) := []     -- position, label, catch node of every wake-up (`leave` of a catch event)
   notes : List String := []
   bad : List String := []
   shortWaits : List Nat := []
@@ -89,6 +89,7 @@ def parseCase (lines : List String) : Case := Id.run do
     | ["set", "proc", p, e] => c := { c with procs := c.procs ++ [(p, e == "1")] }
     | ["set", "node", p, n, k] => c := { c with nodes := c.nodes ++ [(p, n, k)] }
     | ["set", "flow", a, b] => c := { c with flows := c.flows ++ [(a, b)] }
+    | "alone" :: _ :: "observed" :: _ => pure ()
     | "alone" :: p :: rest => c := { c with alone := c.alone ++ [(p, normLine rest)] }
     | "sched" :: _ => pure ()
     | ["op", "startall"] => c := { c with items := c.items ++ [.startAll] }
@@ -121,10 +122,17 @@ def parseCase (lines : List String) : Case := Id.run do
     | "obs" :: "set" :: _ => pure ()
     | "obs" :: label :: rest =>
       if (label.splitOn "#").length == 2 then
+        -- `observed n` only says that catch event `n` looked at an event while listening — also one meant for another
+        -- catch event of the same process (the set wakes a catch event by handing its message to the WHOLE process),
+        -- which it ignores. A wake-up is a catch event that CONTINUES (`leave n`); `observed` traces are not part of
+        -- the behaviour compared with the process running alone.
+        let isObserved := match rest with | ["observed", _] => true | _ => false
         c := { c with items := c.items ++ [.trace label (c.relevant rest)],
-                      memberLines := c.memberLines ++ [(label, normLine rest)] }
+                      memberLines := if isObserved then c.memberLines else c.memberLines ++ [(label, normLine rest)] }
         match rest with
-        | ["observed", n] => c := { c with observed := c.observed ++ [(c.items.length, label, n)] }
+        | ["leave", n] =>
+          if c.kindOf n == "intermediateCatchEvent" then
+            c := { c with observed := c.observed ++ [(c.items.length, label, n)] }
         | _ => pure ()
       else c := { c with bad := c.bad ++ [ln] }
     | "harness-error" :: rest => c := { c with bad := c.bad ++ ["harness-error " ++ " ".intercalate rest] }
